@@ -27,7 +27,8 @@ ASSUMPTIONS = [
     'with git for-each-ref --contains over branches and tags',
 ]
 MIN_NONTRIVIAL = 10
-REQUIRED_COUNTERS = {'c08_explored_jobs': 12, 'c08_placements_reached': 40,
+REQUIRED_COUNTERS = {'c08_placements_with_the_push_refused_once': 40,
+                     'c08_explored_jobs': 12, 'c08_placements_reached': 40,
                      'c08_jobs_checked': 100}
 SHARD_TIMEOUT = {'quick': 900, 'thorough': 5400}
 MONITORS = [monitors.c08_ownership]
